@@ -121,6 +121,9 @@ structure St (α : Type) where
   prev : List (String × Nat) := []
   /-- a standalone `Position` object (driven directly, without a handler) -/
   pos : Option (Position α) := none
+  /-- `settings.SUPPORTED['CURRENCIES']` as read from the code, and the broker's base currency -/
+  supported : List String := []
+  base : String := ""
 
 /-- the fills an `update` will attempt, in execution order (informational; the state is authoritative) -/
 def plannedFills (b : Broker α) (t : Int) (q : Quotes α) : List String :=
@@ -133,7 +136,7 @@ def plannedFills (b : Broker α) (t : Int) (q : Quotes α) : List String :=
   else []
 
 def reply (s : St α) (b' : Broker α) (out : Option Err) (extra : List (String × String) := []) : St α × String :=
-  ({ b := some b', prev := histLens b' },
+  ({ s with b := some b', prev := histLens b' },
    jobj ([("out", jstr (outName out))] ++ extra ++ [("snap", snapJson b' s.prev)]))
 
 def handle (s : St α) (line : String) : St α × String :=
@@ -172,6 +175,28 @@ def handle (s : St α) (line : String) : St α × String :=
         | .ok b => reply { b := none, prev := [] } b none
         | .error e => ({ b := none, prev := [] }, jobj [("out", jstr e.name)])
     | _, _ => bad
+  | "newc" :: nsup :: rest =>
+    -- newc <n> <hex currency>*n <hex base currency> <t> <funds> <fee…>
+    match nsup.toNat? with
+    | none => bad
+    | some n =>
+      match (rest.take n).mapM unhex?, rest.drop n with
+      | some supported, cur :: t :: funds :: feeToks =>
+        match unhex? cur, int? t, (num? funds : Option α) with
+        | some cur, some t, some funds =>
+          let fee? : Option (FeeModel α) :=
+            match feeToks with
+            | ["Z"] => some .zero
+            | ["P", c, tau] => do let c ← num? c; let tau ← num? tau; pure (.percent c tau)
+            | _ => none
+          match fee? with
+          | none => bad
+          | some fee =>
+            match Broker.create supported cur t funds fee with
+            | .ok b => reply { b := none, prev := [], supported := supported, base := cur } b none
+            | .error e => ({ b := none, prev := [] }, jobj [("out", jstr e.name)])
+        | _, _, _ => bad
+      | _, _ => bad
   | toks =>
     match s.b with
     | none => bad
@@ -182,7 +207,7 @@ def handle (s : St α) (line : String) : St α × String :=
       match toks with
       | "load" :: rest =>
         match (pLoad b.fee).run rest with
-        | some (b', []) => ({ b := some b', prev := histLens b' }, jobj [("out", jstr "ok")])
+        | some (b', []) => ({ s with b := some b', prev := histLens b' }, jobj [("out", jstr "ok")])
         | _ => bad
       | ["pfsub", pid, t, a] =>
         match int? t, (num? a : Option α) with | some t, some a => doOp (.pfSubscribe pid t a) | _, _ => bad
@@ -221,6 +246,10 @@ def handle (s : St α) (line : String) : St α × String :=
       | ["q", "pfcash", pid] => (s, exceptJson (b.portfolioCash pid))
       | ["q", "pfmv", pid] => (s, exceptJson (b.portfolioMarketValue pid))
       | ["q", "pfeq", pid] => (s, exceptJson (b.portfolioEquity pid))
+      | ["q", "cash", cur] =>
+        match unhex? cur with
+        | some cur => (s, exceptJson (b.accountCash s.supported s.base cur))
+        | none => bad
       | _ => bad
 
 end
